@@ -6,12 +6,17 @@ from sx.api import assume, check, cover, untraced, pick, pickbool
 
 PROPERTY = 'C14'
 LABELS = ['C14.const_guard', 'C14.readonly_never', 'C14.name_constant', 'C14.const_identity', 'C14.readonly_value',
-          'C14.flags_restored', 'C14.class_set_leaves_instances']
+          'C14.flags_restored', 'C14.class_set_leaves_instances', 'C14.ref_to_constant_rejected']
 EXPLANATION = ("Harness c14.prog: an instance of Q(P) with a constant c (default object, optionally given in the constructor), a "
                "constant d whose default is None, and a readonly r; history of k symbolic operations (instance set / update / class "
                "set on P or Q / readonly set at instance, class, subclass level / edit_constant ENTER / EXIT / exceptional EXIT / set "
                "of name) with objects chosen from a pool by symbolic index; the held object may change only inside edit_constant or "
                "by re-assigning the identical object, every other attempt raises TypeError, flags are restored on every exit.")
+EXPLANATION += (" Harness c14.two: two instances of Q plus an instance created during the history (possibly while an "
+                "edit_constant block of another object is open); edit_constant ENTER / EXIT per instance (LIFO, depth 2), instance "
+                "sets, class-level sets, and a reference handed to the constant allow_refs parameter k followed by a change of its "
+                "source: an instance is editable while its own block is open, protected whenever no block is open at all, keeps "
+                "its object across class-level sets, and all flags are restored once every block is closed.")
 STUBS = []
 OUTSIDE = ["whether other instances are editable while edit_constant(p) is open (statement silent)", "nesting deeper than 2"]
 ASSUMPTIONS = ["objects from a pool of 4 distinct objects; names from a pool of 3 distinct strings"]
@@ -130,6 +135,110 @@ def _ranges(consts):
 prog.ranges = _ranges
 
 
+N2 = 6
+
+
+def two(k: int, npool: int, o1: int, t1: int, a1: int, o2: int, t2: int, a2: int, o3: int, t3: int, a3: int,
+        o4: int, t4: int, a4: int, o5: int, t5: int, a5: int) -> None:
+    with untraced():
+        class S(param.Parameterized):
+            v = param.Parameter(default=O[3])
+
+        class P(param.Parameterized):
+            c = param.Parameter(default=O[0], constant=True)
+            k = param.Parameter(default=O[0], constant=True, allow_refs=True)
+
+        class Q(P):
+            pass
+        src = S()
+    insts = [Q(), Q()]
+    held = [{'c': O[0], 'k': O[0]}, {'c': O[0], 'k': O[0]}]
+    stack = []      # (context manager, index of the instance it was opened on)
+    for step, (o, t, a) in enumerate(((o1, t1, a1), (o2, t2, a2), (o3, t3, a3), (o4, t4, a4), (o5, t5, a5))[:k]):
+        o = pick(o, 0, N2 - 1)
+        a = pick(a, 0, npool - 1)
+        cover('C14.two_op%d' % o)
+        v = O[a]
+        open_on = [i for _, i in stack]
+        info = {'op': o, 'step': step, 'open_on': list(open_on), 'two': True}
+        if o == 0:      # instance set of c on instance t
+            assume(0 <= t < len(insts))
+            t = pick(t, 0, len(insts) - 1)
+            try:
+                insts[t].c = v
+                res = 'ok'
+            except TypeError:
+                res = 'TypeError'
+            inf = dict(info, target=t, res=res)
+            if t in open_on or v is held[t]['c']:
+                check('C14.const_guard', res == 'ok', inf)
+            elif not open_on:
+                check('C14.const_guard', res == 'TypeError', inf)
+            # only another object's block is open: the statement is silent on whether t is editable
+            if res == 'ok':
+                held[t]['c'] = v
+        elif o == 1:    # ENTER on instance t
+            assume(len(stack) < 2 and 0 <= t < len(insts))
+            t = pick(t, 0, len(insts) - 1)
+            cm = edit_constant(insts[t])
+            cm.__enter__()
+            stack.append((cm, t))
+        elif o == 2:    # EXIT (LIFO)
+            assume(len(stack) > 0)
+            stack.pop()[0].__exit__(None, None, None)
+        elif o == 3:    # a new instance, possibly while a block of another object is open
+            assume(len(insts) < 3)
+            insts.append(Q())
+            held.append({'c': Q.c, 'k': Q.k})
+        elif o == 4:    # class-level set on P / Q
+            K = P if a % 2 == 0 else Q
+            try:
+                K.c = v
+            except TypeError:
+                pass
+        else:           # a reference handed to the constant k of instance t while no block is open, then its source changes
+            assume(not stack and 0 <= t < len(insts))
+            t = pick(t, 0, len(insts) - 1)
+            assume(src.v is not held[t]['k'])
+            try:
+                insts[t].k = src.param.v
+                res = 'ok'
+            except TypeError:
+                res = 'TypeError'
+            check('C14.ref_to_constant_rejected', res == 'TypeError', dict(info, target=t, res=res))
+            src.v = v
+        for i, ob in enumerate(insts):
+            check('C14.const_identity', ob.c is held[i]['c'] and ob.k is held[i]['k'], dict(info, inst=i))
+        if not stack:
+            ok = all(ob.param[n].constant is True for ob in insts for n in ('c', 'k', 'name')) and \
+                all(K.param[n].constant is True for K in (P, Q) for n in ('c', 'k', 'name'))
+            check('C14.flags_restored', ok, info)
+    # finally close whatever is open and probe every instance: nobody may be left unprotected
+    while stack:
+        stack.pop()[0].__exit__(None, None, None)
+    for i, ob in enumerate(insts):
+        other = O[1] if held[i]['c'] is not O[1] else O[2]
+        try:
+            ob.c = other
+            res = 'ok'
+        except TypeError:
+            res = 'TypeError'
+        check('C14.const_guard', res == 'TypeError', {'two': True, 'final_probe': True, 'inst': i, 'res': res})
+        check('C14.const_identity', ob.c is held[i]['c'], {'two': True, 'final_probe': True, 'inst': i})
+
+
+def _ranges2(consts):
+    r = {}
+    for n in (1, 2, 3, 4, 5):
+        r['o%d' % n] = (0, N2 - 1)
+        r['t%d' % n] = (0, 2)
+        r['a%d' % n] = (0, consts['npool'] - 1)
+    return r
+
+
+two.ranges = _ranges2
+
+
 def shards(tier):
     out = []
     q = tier == 'quick'
@@ -148,6 +257,13 @@ def shards(tier):
                     c.update({'o%d' % j: 0, 'a%d' % j: 0})
                 out.append(dict(name='c%d_o%d%d' % (ctor, o1, o2), module='harness.c14', fn='prog', consts=c,
                                 budget_s=60 if q else 600))
+    k2 = 4 if q else 5
+    for o1 in (0, 1, 3, 4, 5):
+        for o2 in range(N2):
+            c = dict(k=k2, npool=3, o1=o1, o2=o2)
+            for j in range(k2 + 1, 6):
+                c.update({'o%d' % j: 0, 't%d' % j: 0, 'a%d' % j: 0})
+            out.append(dict(name='two_o%d%d' % (o1, o2), module='harness.c14', fn='two', consts=c, budget_s=60 if q else 600))
     return out
 
 
